@@ -29,6 +29,9 @@ pub struct Cfg {
     /// object bytes that do not compress (the transfer length then follows the object length)
     #[serde(default)]
     pub incompressible: bool,
+    /// zero-filled content: inflates to hundreds of times its transfer length (the inflater is drained many times per block)
+    #[serde(default)]
+    pub sparse: bool,
     /// session default OTI of the object's own FEC scheme and E but another block length and parity
     /// count (the FDT then carries FEC attributes at instance level AND, different, at file level)
     #[serde(default)]
@@ -58,6 +61,7 @@ impl Cfg {
         o.count = self.count;
         o.cenc = self.cenc;
         o.text = self.cenc != 0 && !self.incompressible;
+        o.sparse = self.sparse;
         o.inband_cenc = self.inband_cenc;
         o.md5 = self.md5;
         if self.stream != 0 {
@@ -275,7 +279,7 @@ fn run_corrupt_expect(p: &Prepared, seq: &[usize], c: &Corrupt, g: &mut G) -> Op
 }
 
 fn configs(thorough: bool) -> Vec<Cfg> {
-    let c = |scheme, e, b, parity, len, cenc, inband_fti, count, carousel, interleave| Cfg { scheme, e, b, parity, len, cenc, inband_fti, count, carousel, interleave, inband_cenc: inband_fti, md5: true, incompressible: false, sess_like: false, second: 0, al: 0, n: 0, stream: 0 };
+    let c = |scheme, e, b, parity, len, cenc, inband_fti, count, carousel, interleave| Cfg { scheme, e, b, parity, len, cenc, inband_fti, count, carousel, interleave, inband_cenc: inband_fti, md5: true, incompressible: false, sparse: false, sess_like: false, second: 0, al: 0, n: 0, stream: 0 };
     let mut v = vec![
         c(Scheme::NoCode, 4, 2, 0, 11, 0, true, 1, false, 1),
         c(Scheme::NoCode, 4, 2, 0, 11, 0, false, 1, false, 1),
@@ -423,6 +427,20 @@ fn configs(thorough: bool) -> Vec<Cfg> {
                 }
                 let mut x = c(Scheme::Raptor, e, b, parity, len, 0, inband_fti, 1, false, 1);
                 x.md5 = md5;
+                v.push(x);
+            }
+        }
+    }
+    // very compressible content (compression ratio in the hundreds and thousands): one and several blocks
+    for cenc in [1u8, 2, 3] {
+        for md5 in [false, true] {
+            for (e, b, len) in [(1024u16, 64u16, 400_000usize), (64, 2, 300_000), (16, 4, 1_500_000)] {
+                if !thorough && len > 400_000 {
+                    continue;
+                }
+                let mut x = c(Scheme::NoCode, e, b, 0, len, cenc, true, 1, false, 1);
+                x.md5 = md5;
+                x.sparse = true;
                 v.push(x);
             }
         }
